@@ -31,6 +31,7 @@ CONF = {
         inv=['InvC04', 'InvViews'],
         mc=[('affinity', ['Submit', 'RemoveApp', 'SetPrio', 'Down', 'Up', 'RemoveServer', 'AddServer'], None)],
         gen=['affinity', 'affinity', 'topology'], weights=['pressure', 'pressure'],
+        focus=[('evict', 'gen_evict'), ('affinity', 'gen_evict')],
         rule='a history counts when after some cycle a node is exactly at a finite affinity limit; distinct = distinct environment histories'),
     'C05': dict(
         inv=['InvC05', 'InvViews'],
@@ -115,6 +116,10 @@ def _gen(ctx, prop):
                                                   rng.choice(wsets))))
         for _ in range(n_rnd // 2):
             out.append((scn, 'tuples', sc.gen_tuples(sc.SCENARIOS[scn], rng, rng.choice([3, 4, 5]))))
+    rf = random.Random(ctx.seed * 2221)
+    for scn, fn in conf.get('focus', []):
+        for _ in range(60 if ctx.quick else 600):
+            out.append((scn, fn, getattr(sc, fn)(sc.SCENARIOS[scn], rf)))
     return out
 
 
